@@ -41,17 +41,17 @@ func init() {
 	}})
 }
 
-var c19States = []string{"fresh", "greeted", "mail", "rcpt", "bdat", "hellorej"}
+var c19States = []string{"fresh", "greeted", "mail", "rcpt", "bdat", "hellorej", "wrongflavour"}
 
 func c19Run(ctx *core.Ctx) {
 	nFuzz, shortLen := 60000, 3
 	if ctx.Thorough() {
 		nFuzz, shortLen = 5000000, 5
 	}
-	ctx.Rule = fmt.Sprintf("limits {32,64,2000} x total line lengths {limit-2..limit+3, 3*limit} x position {first line, later line, MAIL line, inside an AUTH exchange, after DATA, after a non-LAST BDAT chunk, after a refused BDAT} x {one segment, two segments cut in the middle / after the first octet / right before CRLF / right before LF} x Server.Debug {unset, set}; endless lines fed in 512-octet segments; all strings of length <=%d over {NUL,CR,LF,SP,'A','a',':','<',0xFF} as command lines in 6 session states (fresh, greeted, greeting refused by the backend, MAIL, RCPT, mid-BDAT); %d seeded binary lines / token soups (a quarter of them MAIL/RCPT lines whose path is a soup of path fragments, another quarter MAIL/RCPT lines with a valid path and a soup of parameter fragments: truncated xtext hexchars, utf-8-addr escapes, dates, lists; every extension enabled); mixes of valid commands with 3..6 invalid ones. Oracles: ErrorLog tap (recovered panics), consumption counter of the transport, reply parser, backend log. Non-trivial: every case (hostile by construction); distinct by case.", shortLen, nFuzz)
+	ctx.Rule = fmt.Sprintf("limits {32,64,2000,5000,8192} x total line lengths {limit-2..limit+3, 3*limit} x position {first line, later line, MAIL line, inside an AUTH exchange, after DATA, after a non-LAST BDAT chunk, after a refused BDAT} x {one segment, two segments cut in the middle / after the first octet / right before CRLF / right before LF} x Server.Debug {unset, set}; endless lines fed in 512-octet segments; all strings of length <=%d over {NUL,CR,LF,SP,'A','a',':','<',0xFF} as command lines in 7 session states (fresh, greeted, greeting refused by the backend, greeting of the wrong flavour, MAIL, RCPT, mid-BDAT); %d seeded binary lines / token soups (a quarter of them MAIL/RCPT lines whose path is a soup of path fragments, another quarter MAIL/RCPT lines with a valid path and a soup of parameter fragments: truncated xtext hexchars, utf-8-addr escapes, dates, lists; every extension enabled); mixes of valid commands with 3..6 invalid ones. Oracles: ErrorLog tap (recovered panics), consumption counter of the transport, reply parser, backend log. Non-trivial: every case (hostile by construction); distinct by case.", shortLen, nFuzz)
 	ctx.Assumptions = []string{"lines of exactly limit+1 octets are not judged", "short lines that share a segment with an over-long one are not judged", "an unrecovered panic kills the child process and is reported by the parent as <id>:process-crash"}
 	core.RunCases(ctx, func(emit func(c19Case)) {
-		for _, limit := range []int{32, 64, 2000} {
+		for _, limit := range []int{32, 64, 2000, 5000, 8192} {
 			lens := []int{limit - 2, limit - 1, limit, limit + 1, limit + 2, limit + 3, 3 * limit}
 			for _, L := range lens {
 				for _, pos := range []string{"first", "later", "mailline", "auth", "afterdata", "afterchunk", "afterrefused", "afterfailedchunk", "afteroverlimit"} {
@@ -144,6 +144,11 @@ func c19Enter(p *wire.Peer, mode srvMode, state string) bool {
 	case "fresh":
 	case "greeted":
 		cmds = []string{mode.hello()}
+	case "wrongflavour":
+		cmds = []string{"LHLO lmtp-client.test"} // refused: this is an SMTP server
+		if mode.lmtp() {
+			cmds = []string{"EHLO smtp-client.test"}
+		}
 	case "hellorej":
 		cmds = []string{strings.Fields(mode.hello())[0] + " rejected1.test"} // the backend refuses to create a session
 	case "mail":
@@ -402,7 +407,7 @@ func c19ParamSoup(seed uint64) ([]byte, string) {
 	case 0, 1:
 		line, state = "RCPT TO:<a@b.test>", "mail"
 	case 2:
-		state = "hellorej" // the greeting was refused by the backend: there is no session
+		state = []string{"hellorej", "wrongflavour"}[r.Intn(2)] // the greeting was refused: there is no session
 	}
 	n := 1 + r.Intn(8)
 	b := []byte(line + " ")
@@ -422,7 +427,7 @@ func c19PathSoup(seed uint64) ([]byte, string) {
 	case 1:
 		line, state = "RCPT TO:", "mail"
 	case 2:
-		line, state = "MAIL FROM:", "hellorej"
+		line, state = "MAIL FROM:", []string{"hellorej", "wrongflavour"}[r.Intn(2)]
 	}
 	b := []byte(line)
 	for n := 1 + r.Intn(7); n > 0; n-- {
